@@ -373,8 +373,13 @@ Schema::Evaluate(const std::string& input) const {
 }
 
 void Schema::TriggerParse(const EntityUID target) {
-  ParseCst(target);
   const auto expansion = Graph().ExpandOutputs({ target });
+  // Note: forget previous results of the target and all its dependants before re-checking them.
+  // Otherwise a definition that (directly or through a cycle) depends on itself is checked against its own outdated type
+  for (const auto uid : expansion) {
+    info.at(uid).Reset();
+  }
+  ParseCst(target);
   const auto orderedList = Graph().Sort(expansion);
   for (const auto dependant : orderedList) {
     if (dependant != target) {
